@@ -203,6 +203,38 @@ func (w *apWalker) resultCell(call *ssa.Call, env apEnv) (*ssa.Alloc, apEnv) {
 	return al, cenv
 }
 
+func (w *apWalker) retKey(fn *ssa.Function, env apEnv) string {
+	k := "ret:" + fn.String()
+	for f := fn; f != nil; f = f.Parent() {
+		for _, p := range f.Params {
+			k += "|" + env[p]
+		}
+	}
+	return k
+}
+
+// resultKey: the content key of the slice a static repo callee returns when it builds it as a value.
+func (w *apWalker) resultKey(call *ssa.Call, env apEnv) (string, bool) {
+	cal := staticCallee(call)
+	if cal == nil || cal.Blocks == nil || !isRepoFunc(cal) || cal.Signature.Results().Len() != 1 {
+		return "", false
+	}
+	if _, isSl := cal.Signature.Results().At(0).Type().Underlying().(*types.Slice); !isSl {
+		return "", false
+	}
+	cenv := env.clone()
+	for i, a := range call.Call.Args {
+		if i < len(cal.Params) {
+			if p, ok := w.pathOf(a, env); ok {
+				cenv[cal.Params[i]] = p
+			} else {
+				delete(cenv, cal.Params[i])
+			}
+		}
+	}
+	return w.retKey(cal, cenv), true
+}
+
 // elemRead: v indexes a collection the walker knows the content of: the key of that collection.
 func (w *apWalker) elemRead(coll, idx ssa.Value, env apEnv) (string, bool) {
 	var key string
@@ -212,9 +244,11 @@ func (w *apWalker) elemRead(coll, idx ssa.Value, env apEnv) (string, bool) {
 	} else if call, ok := coll.(*ssa.Call); ok {
 		if al, cenv := w.resultCell(call, env); al != nil {
 			cell, key = al, w.cellKey(al, cenv)
+		} else if k, ok := w.resultKey(call, env); ok {
+			key = k // a list the callee builds as a plain value (appends joined by phis)
 		}
 	}
-	if cell == nil || len(w.content[key]) == 0 {
+	if (cell == nil && key == "") || len(w.content[key]) == 0 {
 		return "", false
 	}
 	// every element is visited: a range loop, or the head/tail of a list that is drained
@@ -254,6 +288,55 @@ func (w *apWalker) addContent(key, p string, cond bool) {
 
 // recordContent: the stores of fn into local slice cells: `c = append(c, e…)`, `c = append(c, other…)`, `c = list`.
 func (w *apWalker) recordContent(fn *ssa.Function, env apEnv) {
+	// the list the function returns, built as a value: append calls joined by phis
+	if fn.Signature.Results().Len() == 1 {
+		if _, isSl := fn.Signature.Results().At(0).Type().Underlying().(*types.Slice); isSl {
+			seen := map[ssa.Value]bool{}
+			var back func(v ssa.Value, d int)
+			key := w.retKey(fn, env)
+			back = func(v ssa.Value, d int) {
+				if v == nil || seen[v] || d > 24 {
+					return
+				}
+				seen[v] = true
+				switch x := v.(type) {
+				case *ssa.Phi:
+					for _, e := range x.Edges {
+						back(e, d+1)
+					}
+				case *ssa.Slice:
+					back(x.X, d+1)
+				case *ssa.Call:
+					if calleeName(x) != "builtin append" || len(x.Call.Args) != 2 {
+						return
+					}
+					back(x.Call.Args[0], d+1)
+					cond := w.cond || conditionalSite(fn, x)
+					if sl, isSl := x.Call.Args[1].(*ssa.Slice); isSl {
+						if vs, ok := varargValues(sl); ok {
+							for _, e := range vs {
+								if e == nil {
+									continue
+								}
+								if p, ok := w.pathOf(e, env); ok {
+									w.addContent(key, p, cond)
+								} else if dsc, ok := w.literalDescriptor(e, env); ok {
+									w.addContent(key, dsc, cond)
+								}
+							}
+							return
+						}
+					}
+					if p, ok := w.pathOf(x.Call.Args[1], env); ok {
+						w.addContent(key, p+"[*]", cond)
+					}
+				}
+			}
+			for _, r := range returnsOf(fn) {
+				back(returnValues(r)[0], 0)
+			}
+		}
+	}
 	allInstrs(fn, func(in ssa.Instruction) {
 		st, ok := in.(*ssa.Store)
 		if !ok {
@@ -284,6 +367,8 @@ func (w *apWalker) recordContent(fn *ssa.Function, env apEnv) {
 						}
 						if p, ok := w.pathOf(e, env); ok {
 							w.addContent(key, p, cond)
+						} else if d, ok := w.literalDescriptor(e, env); ok {
+							w.addContent(key, d, cond)
 						}
 					}
 					return
@@ -304,6 +389,52 @@ func (w *apWalker) recordContent(fn *ssa.Function, env apEnv) {
 			w.addContent(key, p+"[*]", cond)
 		}
 	})
+}
+
+// literalDescriptor: e is a struct literal some of whose members denote access paths
+// (filterRef{ref: &inp.Filter.Ref, field: …}): "{0=<path>;…}" – a member read of an element
+// with such a descriptor yields the member's path.
+func (w *apWalker) literalDescriptor(e ssa.Value, env apEnv) (string, bool) {
+	u, ok := e.(*ssa.UnOp)
+	if !ok || u.Op != token.MUL {
+		return "", false
+	}
+	al, ok := u.X.(*ssa.Alloc)
+	if !ok {
+		return "", false
+	}
+	var parts []string
+	for _, ref := range *al.Referrers() {
+		fa, ok := ref.(*ssa.FieldAddr)
+		if !ok {
+			continue
+		}
+		for _, r2 := range *fa.Referrers() {
+			if st, ok := r2.(*ssa.Store); ok && st.Addr == ssa.Value(fa) {
+				if p, ok := w.pathOf(st.Val, env); ok && !strings.HasPrefix(p, "{") {
+					parts = append(parts, fmt.Sprintf("%d=%s", fa.Field, p))
+				}
+			}
+		}
+	}
+	if len(parts) == 0 {
+		return "", false
+	}
+	sort.Strings(parts)
+	return "{" + strings.Join(parts, ";") + "}", true
+}
+
+func descriptorMember(d string, idx int) (string, bool) {
+	if !strings.HasPrefix(d, "{") || !strings.HasSuffix(d, "}") {
+		return "", false
+	}
+	pre := fmt.Sprintf("%d=", idx)
+	for _, part := range strings.Split(d[1:len(d)-1], ";") {
+		if strings.HasPrefix(part, pre) {
+			return part[len(pre):], true
+		}
+	}
+	return "", false
 }
 
 // contentReads: the collections with known content that fn reads elements of and for which no element is assumed yet.
@@ -368,12 +499,18 @@ func (w *apWalker) pathOfD(v ssa.Value, env apEnv, d int) (string, bool) {
 		if !ok {
 			return "", false
 		}
+		if strings.HasPrefix(b, "{") {
+			return descriptorMember(b, x.Field)
+		}
 		return b + "." + f.Name(), true
 	case *ssa.Field:
 		f, _ := fieldOf(x)
 		b, ok := w.pathOfD(x.X, env, d+1)
 		if !ok {
 			return "", false
+		}
+		if strings.HasPrefix(b, "{") {
+			return descriptorMember(b, x.Field)
 		}
 		return b + "." + f.Name(), true
 	case *ssa.IndexAddr:
@@ -592,6 +729,7 @@ func (w *apWalker) walkOnce(fn *ssa.Function, env apEnv) {
 	}
 	w.stack[fn]++
 	defer func() { w.stack[fn]-- }()
+	w.recordContent(fn, env) // again under the elements assumed for this pass
 	for _, ci := range callsIn(fn) {
 		cc := ci.Common()
 		args := cc.Args
